@@ -900,23 +900,76 @@ class C19(Base):
                         if isinstance(e.children[-1], gen.El) and rng.random() < 0.7:
                             e.wrap_close = None
                             label = "history+bare-unwrap"
+            if i % 6 == 3:
+                # another (inline) element on the line of a block tag: in front of a closing tag, behind an opening tag
+                sp0 = gen.Spelling()
+                for e in gen.all_elements(items):
+                    if isinstance(e, gen.El) and e.children is not None and rng.random() < 0.5 and e.indent is not None:
+                        ie = gen.El(rng.choice(["tl", "rm"]), True)
+                        ie.to = rng.choice(TIMES)
+                        ie.name = rng.choice(NAMES)
+                        txt = sp0.open_tag(ie) + rng.choice(["x", "", "y z"]) + sp0.close_tag(ie)
+                        if rng.random() < 0.6:
+                            e.pre_close = txt + rng.choice(["", " "])
+                        else:
+                            e.post_open = rng.choice(["", " "]) + txt
+                        label = "history+shared-tag-line"
             hists.append(self.mk_history(gen.render(items, final_nl=rng.random() < 0.8), self.chain(rng), label))
             if len(hists) >= 2000:
                 yield from self.build(hists)
                 hists = []
         yield from self.build(hists)
 
+    TAG_RE = re.compile(r"<(/?)([A-Za-z]+)([^<>]*)>")
+
+    @staticmethod
+    def ready_spans(src, cfg):
+        """(start, end) character spans of the elements that are ready under cfg (outermost and nested alike), recovered
+        from the text with the stack rule; cfg is a Cfg JSON dict"""
+        spans = []
+        stack = []
+        for m in C19.TAG_RE.finditer(src):
+            closing, name, attrs = m.group(1), m.group(2), m.group(3)
+            if not closing:
+                stack.append((name, m.start(), attrs))
+                continue
+            for k in range(len(stack) - 1, -1, -1):
+                if stack[k][0] == name:
+                    _, st, at = stack[k]
+                    del stack[k:]
+                    words = at.replace("\n", " ").split(" ")
+                    ready = False
+                    if "skip" not in words:
+                        if name == cfg["rm"]:
+                            mm = re.search(r"name='([^']*)'", at)
+                            ready = bool(mm) and mm.group(1) in cfg["targets"]
+                        elif name == cfg["tl"]:
+                            mm = re.search(r"to='([^']*)'", at)
+                            if mm and mm.group(1) in TIMES:
+                                ready = TIME_EPOCHS[TIMES.index(mm.group(1))] <= cfg["now"]
+                    if ready:
+                        spans.append((st, m.end()))
+                    break
+        return spans
+
     def region_tag_at_end_of_code_line(self, case, verdict):
-        """some line has non-blank text before a tag and ends with a tag (an element closed, or opened, at the end of a code line)"""
+        """in some step of the history a ready element ends its line (only blanks follow) while non-blank text - code or
+        another tag - stands before it on that line"""
         if verdict.get("fail") != "C19-composition":
             return False
-        for l in case.meta["src"].split("\n"):
-            t = l.strip(" \t")
-            if t.endswith(">") and t.find("<") > 0:
-                return True
+        docs = case.meta.get("_docs") or [case.meta["src"]]
+        cfgs = case.meta["cfgs"]
+        for step, cfg in enumerate(cfgs + [cfgs[-1]]):
+            for d in ([docs[step]] if step < len(docs) and docs[step] is not None else []) + ([docs[0]] if step == len(cfgs) else []):
+                for (s0, e0) in self.ready_spans(d, cfg):
+                    eol = d.find("\n", e0)
+                    after = d[e0:eol] if eol >= 0 else d[e0:]
+                    if eol < 0 or after.strip(" \t") != "":
+                        continue
+                    bol = d.rfind("\n", 0, s0) + 1
+                    if d[bol:s0].strip(" \t") != "":
+                        return True
         return False
-
-    TAG_RE = re.compile(r"<(/?)([A-Za-z]+)([^<>]*)>")
 
     def region_wrapper_line_is_tag(self, case, verdict):
         """some unwrap-block has a wrapper line (the line after its opening tag / before its closing tag) that carries a tag of
@@ -1040,6 +1093,13 @@ class C20(Base):
                  "file_style": rng.choice(["lf", "lf", "crlf", "no-final-newline", "blank-line"]),
                  "mode": mode if mode != "both" else "list", "list_flag_both": mode == "both", "json": rng.random() < 0.4}
             yield self.mk_case(m, "cli")
+        # the empty document and documents of white space only, through every mode and route
+        for src in ["", "\n", " ", "\n\n"]:
+            for mode, js in [("clean", False), ("list", False), ("list", True), ("list_all", False), ("list_all", True)]:
+                m = {"src": src, "ds": self.DEF["ds"], "de": self.DEF["de"], "tl": self.DEF["tl"], "rm": self.DEF["rm"],
+                     "off": self.DEF["off"], "now": gen.NOW, "flags": [], "file": None, "file_style": "lf",
+                     "mode": mode, "list_flag_both": False, "json": js}
+                yield self.mk_case(m, "cli-empty-document")
 
     def run_binary(self, m, route_in, route_out, tz):
         import datetime
